@@ -913,6 +913,8 @@ def run_obligation(ob, seed=0, tier="quick", collect_functions=True):
                 pv.detail = f"{p.kind}: {p.value}"
             res["queries"] += pv.queries
             res["solver_s"] += pv.solver_s
+            if pv.status == "holds" and pv.queries == 0:
+                res["syntactic_paths"] = res.get("syntactic_paths", 0) + 1
             for k_, v_ in pv.cross.items():
                 res.setdefault("cross", {"agree": 0, "disagree": 0, "unknown": 0})[k_] += v_
             if pv.relaxed_only:
@@ -1218,9 +1220,14 @@ def build_evidence(prop, tier, seed, results, extra, wall, n_viol, level, known_
                            "bounds ∧ assumptions ∧ path-condition ∧ definitions ∧ ¬claim; `unsat` on every path = the claim holds for "
                            "all input values within the stated bounds. Models are replayed on plain numpy before being reported.",
             "obligations": n_ob, "discharged": discharged,
-            "evaluations": sum(r["queries"] for r in results) + sum(e.get("evaluations", 0) for e in extra),
+            "evaluations": sum(r["queries"] + r.get("syntactic_paths", 0) for r in results) + sum(e.get("evaluations", 0) for e in extra),
+            "smt_queries": sum(r["queries"] for r in results),
+            "paths_decided_before_any_query": sum(r.get("syntactic_paths", 0) for r in results),
             "distinct_nontrivial": distinct,
-            "rule": "one evaluation = one SMT query (negated claim on one path of one obligation/configuration); distinct non-trivial = "
+            "rule": "one evaluation = one decision of the negated claims on one path of one obligation/configuration: an SMT query, or -- when the "
+                    "difference polynomials are identically zero / bounded by the tolerance over the whole input box by interval arithmetic -- a "
+                    "decision by the normal form before any query (counted separately as paths_decided_before_any_query; branch-feasibility "
+                    "queries of the path exploration are counted separately, too); distinct non-trivial = "
                     "obligation/configuration pairs with at least one symbolic input and at least one explored path",
             "paths": sum(r["paths"] for r in results),
             "branch_feasibility_queries": sum(r.get("branch_queries", 0) for r in results),
